@@ -242,6 +242,8 @@ def notifications_unit(ctx):
     s = Self()
     s._lock, s._state = Lock(), StateStub()
     s._exception_tuples, s._max_exception_count = [], 2
+    # the configuration a constructed observer carries (read by any method that wants it)
+    s._initial_update_delay, s._min_update_interval, s._max_update_interval = 0.5, 0.25, 5.0
     env = base_env(SP)
     S, A = ("a", 1), 3
     if which < 4:
@@ -281,8 +283,9 @@ def notifications_unit(ctx):
             self.started += 1
             log.append("thread.start")
 
-        def join(self, *a):
+        def join(self, *a, **k):
             self.joined += 1
+            self.join_args = getattr(self, "join_args", []) + [(a, k)]
             log.append("thread.join")
 
     class _threading:
@@ -308,6 +311,9 @@ def notifications_unit(ctx):
     f(s, None, None, None)
     ctx.check("__exit__:sets-the-done-event-THEN-joins-the-update-thread(so-the-final-rendering-happens-before-run-returns)",
               bool([e for e in log if e in ("event.set", "thread.join")] == ["event.set", "thread.join"] and t.joined == 1))
+    ja = getattr(t, "join_args", [])
+    ctx.check("__exit__:the-join-has-no-time-limit(a-final-rendering-slower-than-any-interval-is-still-waited-for)",
+              bool(len(ja) == 1 and all(x is None for x in ja[0][0]) and all(v is None for v in ja[0][1].values())), info=str(ja))
     return "exit"
 
 
